@@ -292,6 +292,57 @@ fn run(a: &Args) {
             cx.st.count("op_from");
         }
 
+        // ---------------- From<Rep>, structured far values (native oracle only, no model needed):
+        // {MIN, MAX, 0, EQ} + j + k*2^bits for k across the WHOLE backing range — every |k| <= 64, every
+        // power of two +-2 (thresholds of any "skip whole periods" shortcut), the extreme k of the backing
+        // type, and seeded random k — so that exact ties (v == MAX or MIN modulo 2^bits, far out) are hit
+        {
+            let (kmin, kmax) = ((rl - l).div_euclid(total), (rh - h).div_euclid(total));
+            let mut ks: Vec<i128> = (-64..=64).collect();
+            for m in 0..63u32 { for d in -2..=2 { ks.push((1i128 << m) + d); ks.push(-(1i128 << m) + d); } }
+            for d in 0..4 { ks.push(kmin + d); ks.push(kmax - d); ks.push(kmin / 2 + d); ks.push(kmax / 2 - d); }
+            for _ in 0..(if thorough { 5000 } else { 200 }) { ks.push(rng.range_i128(kmin - 1, kmax + 1)); }
+            ks.sort(); ks.dedup();
+            let mut n = 0u64;
+            for &k in ks.iter() { for c in [l, h, 0, weq] { for j in -2..=2 {
+                let v = c + j + k * total;
+                if v < rl || v > rh { continue; }
+                let r = (t.from)(v);
+                let want = Some(wrap(t, v));
+                if r != want {
+                    cx.st.oracle_fail(&format!("{}::from must wrap modulo 2^{} into range", t.name, t.bits), &format!("ty {} {} from {}", t.name, mode, v), &show(want), &show(r));
+                } else { cx.st.oracle_ok(1); }
+                n += 1;
+            } } }
+            cx.st.count_n("from_structured_k_times_total_native_oracle", n);
+        }
+
+        // ---------------- mul, operand pairs constructed so that the exact product is == MIN, MAX, MIN+-1,
+        // MAX+-1, 0, EQ, +-1 (mod 2^bits) with a large quotient: a random odd, b = target * a^-1 (mod 2^bits)
+        // (native oracle only; such products are out of reach of boundary x random operand pairs)
+        {
+            let mask: u128 = (1u128 << t.bits) - 1;
+            let inv = |a: i128| -> u128 { // inverse of odd a modulo 2^bits (Newton iteration)
+                let a = (a as u128) & mask; let mut x = a;
+                for _ in 0..7 { x = x.wrapping_mul(2u128.wrapping_sub(a.wrapping_mul(x))) & mask; }
+                x };
+            let targets = [l, h, l + 1, h - 1, l - 1, h + 1, 0, weq, 1, -1, weq - 1, weq + 1];
+            let mut n = 0u64;
+            for &tg in targets.iter() { for _ in 0..(if thorough { 4000 } else { 250 }) {
+                let mut a = if rng.chance(1, 2) { rng.range_i128(l, h) } else {
+                    let k = 1 + rng.below(t.bits as u64 - 1) as u32; (weq + rng.range_i128(-(1i128 << k), 1i128 << k)).clamp(l, h) };
+                if a & 1 == 0 { a = if a < h { a + 1 } else { a - 1 }; }
+                let b0 = (((tg as u128) & mask).wrapping_mul(inv(a)) & mask) as i128;   // in [0, 2^bits)
+                let b = wrap(t, b0);
+                debug_assert!(((a * b - tg) % total) == 0);
+                let (x, y) = if rng.chance(1, 2) { (a, b) } else { (b, a) };
+                let r = (t.mul)(x, y);
+                cx.check_arith(t, "mul", x * y, r, &|| format!("ty {} {} mul {} {}", t.name, mode, x, y), true);
+                n += 1;
+            } }
+            cx.st.count_n("mul_product_congruent_to_boundary_native_oracle", n);
+        }
+
         // ---------------- add / sub / mul on in-range operand pairs
         let ops: [(&'static str, Bin); 3] = [("add", t.add), ("sub", t.sub), ("mul", t.mul)];
         if t.bits == 11 && thorough {
